@@ -37,7 +37,7 @@ TRUSTED_BASE = [
 ]
 ASSUMPTIONS = [
     "coordinates, radii, bounds are multiples of 1/16 of modest size; nothing is claimed about arbitrary binary64 inputs",
-    "query points on a torus lie inside the closed bounds or at most half a unit outside (the code's min(d, size-d) is the toroidal distance only up to 1.5 periods)",
+    "query points on a torus lie inside the closed bounds or (queries against agents) at most half a unit outside; get_distance / get_heading on a torus are asked for points of the space only (the code's min(d, size-d) is the toroidal distance only up to 1.5 periods apart)",
     "an agent is placed in one space at most once at a time; positions have the dimension of the space",
     "get_nearest_neighbors is not issued when another agent sits exactly on the asking agent (argpartition tie)",
     "k-nearest answers are compared as sets: which k agents argpartition returns among ties is an input to the model",
@@ -144,7 +144,7 @@ def _gen_history(rng, space, nd, torus, bounds, cap, nops, maxagents=9):
     nxt = 1
     removed = []
 
-    def qpoint():
+    def qpoint(outside_ok=True):
         if placed and rng.random() < 0.45:
             base = list(rng.choice(list(placed.values())))
             if rng.random() < 0.6:
@@ -158,7 +158,8 @@ def _gen_history(rng, space, nd, torus, bounds, cap, nops, maxagents=9):
             q = _point(rng, bounds)
         if torus:
             # inside the closed bounds; now and then up to half a unit outside (still nearer than 1.5 periods)
-            m = 8 if rng.random() < 0.2 else 0
+            # (only for queries with ONE free point: agents are inside, so |d| <= size + 8 <= 1.5 size)
+            m = 8 if outside_ok and rng.random() < 0.2 else 0
             q = [min(max(x, lo - m), hi + m) for (lo, hi), x in zip(bounds, q)]
         elif rng.random() < 0.8:
             q = [min(max(x, lo - 16), hi + 16) for (lo, hi), x in zip(bounds, q)]
@@ -215,9 +216,9 @@ def _gen_history(rng, space, nd, torus, bounds, cap, nops, maxagents=9):
                 if k < 0.7:
                     ops.append(["nbrs", q, _radius(rng, bounds, torus, pts, q), rng.random() < 0.7])
                 elif k < 0.85:
-                    ops.append(["dist", q, qpoint()])
+                    ops.append(["dist", qpoint(False), qpoint(False)])
                 else:
-                    ops.append(["heading", q, qpoint(), rng.choice(["t", "a"])])
+                    ops.append(["heading", qpoint(False), qpoint(False), rng.choice(["t", "a"])])
             else:
                 k = rng.random()
                 if k < 0.35:
